@@ -1,6 +1,7 @@
 #!/usr/bin/env python3
 """C18 - collection filters select exactly the members satisfying the per-shape predicate.
 See DESIGN.md section 5 / C18.  Model: coq/theories/Model/FilterM.v, checker: Corr/FilterK.v."""
+import itertools
 import json
 import os
 import sys
@@ -14,6 +15,7 @@ import gen_coll                                                  # noqa: E402  (
 import logging                                                  # noqa: E402
 logging.disable(logging.CRITICAL)
 from geostructures import Coordinate, GeoPoint, GeoBox, GeoPolygon, GeoLineString   # noqa: E402
+from geostructures import GeoCircle, GeoEllipse, GeoRing                              # noqa: E402
 from geostructures.collections import Track, FeatureCollection  # noqa: E402
 from geostructures.time import TimeInterval                    # noqa: E402
 
@@ -50,15 +52,22 @@ def build(spec):
         sty = spec.get('sty', 'utc')
         dt = to_dt(dt[0], sty) if (dt[0] == dt[1] and spec.get('bare')) else TimeInterval(to_dt(dt[0], sty), to_dt(dt[1], sty))
     props = dict(spec.get('props') or {})
-    if k == 'pt':
-        return GeoPoint(Coordinate(g[0], g[1]), dt=dt, properties=props)
+    holes = [build(h) for h in spec['holes']] if spec.get('holes') else None      # hole specs: dt-less boxes / polygons
+    if k == 'pt':             # g = x, y [, z]
+        return GeoPoint(Coordinate(*g), dt=dt, properties=props)
     if k == 'box':            # g = x0, y0, x1, y1 with x0 < x1, y0 < y1
-        return GeoBox(Coordinate(g[0], g[3]), Coordinate(g[2], g[1]), dt=dt, properties=props)
+        return GeoBox(Coordinate(g[0], g[3]), Coordinate(g[2], g[1]), holes=holes, dt=dt, properties=props)
     if k == 'poly':
         ring = [Coordinate(x, y) for x, y in g]
-        return GeoPolygon(ring + [ring[0]], dt=dt, properties=props)
+        return GeoPolygon(ring + [ring[0]], holes=holes, dt=dt, properties=props)
     if k == 'line':
         return GeoLineString([Coordinate(x, y) for x, y in g], dt=dt, properties=props)
+    if k == 'circle':         # g = x, y, radius (m)
+        return GeoCircle(Coordinate(g[0], g[1]), g[2], holes=holes, dt=dt, properties=props)
+    if k == 'ellipse':        # g = x, y, semi-major, semi-minor (m), rotation
+        return GeoEllipse(Coordinate(g[0], g[1]), g[2], g[3], g[4], holes=holes, dt=dt, properties=props)
+    if k == 'ring':           # g = x, y, inner, outer radius (m)
+        return GeoRing(Coordinate(g[0], g[1]), g[2], g[3], holes=holes, dt=dt, properties=props)
     raise AssertionError(k)
 
 
@@ -164,6 +173,15 @@ def member_vertices(ms):
     return out
 
 
+def on_grid(ms):
+    """every member is a point / line / box / polygon with integer vertices (the exact hull oracle applies)"""
+    try:
+        member_vertices(ms)
+        return not any(isinstance(x, (GeoCircle, GeoEllipse, GeoRing)) for x in ms)
+    except AssertionError:
+        return False
+
+
 def in_closed_hull(v, ring):
     """exact: v lies in the closed convex polygon `ring` (closed list of integer vertices, either
     winding; degenerate rings = a point or a segment are handled by the extent test)"""
@@ -192,7 +210,8 @@ def run_case(spec):
     objs = [build(s) for s in spec['shapes']]
     keep = list(objs)
     idmap = {id(x): i for i, x in enumerate(objs)}
-    fails, stats = [], {'steps': 0, 'skipped': 0, 'asym': 0, 'proper': 0, 'results': 0, 'shrunk': 0, 'hulls': 0, 'classes': []}
+    fails, stats = [], {'steps': 0, 'skipped': 0, 'asym': 0, 'proper': 0, 'results': 0, 'shrunk': 0, 'hulls': 0, 'classes': [],
+                    'coll_pairs': 0, 'coll_eq_pairs': 0, 'coll_split': 0, 'coll_split_first_true': 0}
 
     def outcome(r):
         if r[0] != 'Ok':
@@ -226,7 +245,7 @@ def run_case(spec):
         want = ('Ok', union_bounds(ms)) if ms else ('Err', 'ValueError')
         if rb != want:
             fails.append(('coll_bounds (of a result)', f'{label}: result.bounds = {rb}, union of the result members\' bounds = {want}'))
-        if ms:
+        if ms and on_grid(ms):
             h = guarded(lambda: [ipt(c) for c in res.convex_hull.outline])
             verts = member_vertices(ms)
             if h[0] != 'Ok':
@@ -239,6 +258,7 @@ def run_case(spec):
                 out = [v for v in verts if not in_closed_hull(v, h[1])]
                 if out:
                     fails.append(('hull_contains_members (of a result)', f'{label}: member vertices {out[:4]} outside the hull {h[1]}'))
+        if ms:
             if src_members and want[1] != union_bounds(src_members):
                 stats['shrunk'] += 1
         stats['results'] += 1
@@ -287,6 +307,14 @@ def run_case(spec):
         members = list(coll.geoshapes)
         mids = [idmap[id(x)] for x in members]
         snap = snapshot(coll)
+        # pairs of members (by position, earlier first) with the same hash: unequal ones are where a table keyed
+        # on the hash / a set / a dict of members would confuse two members; equal ones are the control
+        hs = [guarded(lambda x=x: hash(x)) for x in members]
+        same_hash = [(a, b) for a in range(len(members)) for b in range(a + 1, len(members))
+                     if hs[a][0] == 'Ok' and hs[a] == hs[b]]
+        coll_ne = [(a, b) for a, b in same_hash if guarded(lambda: bool(members[a] != members[b])) == ('Ok', True)]
+        stats['coll_pairs'] += len(coll_ne)
+        stats['coll_eq_pairs'] += len(same_hash) - len(coll_ne)
         read_attrs(coll, spec.get('pre', []))          # derived attributes read (cached) BEFORE filtering
         for st in spec['steps']:
             kind = st[0]
@@ -351,6 +379,10 @@ def run_case(spec):
                     stats['skipped'] += 1
                     continue
                 tab = [(i, p[1]) for i, p in zip(mids, per)]
+                for a, b in coll_ne:
+                    if per[a][1] != per[b][1]:
+                        stats['coll_split'] += 1
+                        stats['coll_split_first_true'] += per[a][1]
                 if kind != 'int':
                     other = {'contains': lambda x: q.contains(x), 'contained_by': lambda x: x.contains(q)}[kind]
                     rev = [guarded(lambda x=x: bool(other(x))) for x in members]
@@ -572,6 +604,201 @@ def gen_case(rng):
     return {'kind': kind, 'shapes': shapes, 'steps': steps, 'pre': pre}
 
 
+# ---- H. members that hash alike without being equal --------------------------------------
+# Mechanism class: a filter (or anything it is built on) that identifies members by hash(x), by a
+# set/dict of members, or by == instead of visiting each member: memoised predicates, de-duplication,
+# "seen" sets, result lookups by key.  The library's hashes ignore holes and vertex ORDER, and
+# CPython's numeric hash identifies -1 with -2 and x with x * 2**-61, so unequal members with one
+# hash are easy to meet.  Each case holds one group of such members - or, as a control, of members
+# that ARE equal: 0.0 / -0.0 ordinates, one instant in two time zones, different properties only -
+# adjacent or apart among other shapes, in every order of the group, and queries placed where the
+# group's per-shape verdicts differ (inside one member's hole, in the region two vertex orders
+# disagree on, around the ordinate that differs).  Results are compared member by member, by
+# IDENTITY (ids are positions of the constructed objects), with the plain per-shape scan.
+def _holes_group(rng):
+    cx, cy = rng.randint(-3, 3), rng.randint(-3, 3)
+    k = rng.choice(['box', 'box', 'rect', 'ell', 'circle', 'ellipse', 'ring'])
+    if k in ('box', 'rect', 'ell'):
+        r = rng.choice([4, 8])
+        x0, y0, x1 = cx - r, cy - r, cx + r
+        base = {'box': {'k': 'box', 'g': [x0, y0, x1, cy + r]},
+                'rect': {'k': 'poly', 'g': [[x0, y0], [x1, y0], [x1, cy + r], [x0, cy + r]]},
+                'ell': {'k': 'poly', 'g': [[x0, y0], [x1, y0], [x1, cy], [cx, cy], [cx, cy + r], [x0, cy + r]]}}[k]
+        h1, h2 = [x0 + 1, y0 + 1, x0 + 3, y0 + 3], [x1 - 3, y0 + 1, x1 - 1, y0 + 3]      # SW and SE corners
+    else:
+        base = {'circle': {'k': 'circle', 'g': [cx, cy, 500_000]},
+                'ellipse': {'k': 'ellipse', 'g': [cx, cy, 600_000, 400_000, rng.choice([0, 30])]},
+                'ring': {'k': 'ring', 'g': [cx, cy, 60_000, 500_000]}}[k]
+        h1, h2 = [cx - 2, cy - 1, cx - 1, cy], [cx + 1, cy, cx + 2, cy + 1]
+    def hole(b, as_poly):
+        if as_poly:
+            return {'k': 'poly', 'g': [[b[0], b[1]], [b[2], b[1]], [b[2], b[3]], [b[0], b[3]]], 'dt': None}
+        return {'k': 'box', 'g': b, 'dt': None}
+    tri1 = {'k': 'poly', 'g': [[h1[0], h1[1]], [h1[2], h1[1]], [h1[0], h1[3]]], 'dt': None}
+    sets = [[], [hole(h1, False)], [hole(h2, False)], [hole(h1, False), hole(h2, False)], [hole(h2, False), hole(h1, False)],
+            [hole(h1, True)], [tri1]]
+    variants = [dict(base, holes=hs) for hs in rng.sample(sets, rng.choice([2, 2, 3, 4]))]
+    mid = lambda b: [(b[0] + b[2]) / 2, (b[1] + b[3]) / 2]
+    qs = [{'k': 'pt', 'g': mid(h1)}, {'k': 'pt', 'g': mid(h2)}, {'k': 'pt', 'g': [h1[0] + 1.5, h1[1] + 1.5]},
+          {'k': 'box', 'g': [h1[0] + 0.5, h1[1] + 0.5, h1[2] - 0.5, h1[3] - 0.5]},
+          {'k': 'box', 'g': [h2[0] + 0.5, h2[1] + 0.5, h2[2] + 0.5, h2[3] + 0.5]},
+          {'k': 'box', 'g': [cx - 20, cy - 20, cx + 20, cy + 20]}, {'k': 'pt', 'g': [cx - 0.5, cy - 0.5]}]
+    return 'holes:' + k, variants, qs
+
+
+def _order_group(rng):
+    cx, cy, r = rng.randint(-3, 3), rng.randint(-3, 3), rng.choice([2, 4])
+    sq = [[cx - r, cy - r], [cx + r, cy - r], [cx + r, cy + r], [cx - r, cy + r]]
+    p = [cx + rng.choice([-1, 0, 1]), cy + rng.choice([-1, 0, 1])]
+    dents = [sq[:i + 1] + [p] + sq[i + 1:] for i in range(4)]         # the dent on each side: four unequal simple polygons
+    rings = list(dents)
+    rot = rng.randint(1, 4)
+    rings.append(dents[0][rot:] + dents[0][:rot])                     # equal to dents[0] (rotation) - control
+    rings.append(list(reversed(dents[1])))                            # equal to dents[1] (reversal) - control
+    rings.append([sq[0], sq[2], sq[1], p, sq[3]])                     # a self-crossing order of the same vertices
+    variants = [{'k': 'poly', 'g': g} for g in rng.sample(rings, rng.choice([2, 2, 3, 4]))]
+    qs = []
+    for i in range(4):
+        a, b = sq[i], sq[(i + 1) % 4]
+        c = [(a[0] + b[0] + p[0]) / 3, (a[1] + b[1] + p[1]) / 3]     # inside the triangle that dent i removes
+        qs.append({'k': 'pt', 'g': c})
+        qs.append({'k': 'box', 'g': [c[0] - 0.125, c[1] - 0.125, c[0] + 0.125, c[1] + 0.125]})
+    qs.append({'k': 'box', 'g': [cx - 10, cy - 10, cx + 10, cy + 10]})
+    return 'vertex-order', variants, rng.sample(qs, 5)
+
+
+def _flat(g):
+    return [v for e in g for v in (e if isinstance(e, list) else [e])]
+
+
+def _subst(g, pos, val):
+    """the geometry with its pos-th ordinate (in _flat order) replaced"""
+    out, n = [], 0
+    for e in g:
+        if isinstance(e, list):
+            out.append([val if n + j == pos else v for j, v in enumerate(e)])
+            n += len(e)
+        else:
+            out.append(val if n == pos else e)
+            n += 1
+    return out
+
+
+def _valid(k, g):
+    if k == 'box':
+        return g[0] < g[2] and g[1] < g[3]
+    if k in ('poly', 'line'):
+        return len({tuple(v) for v in g}) == len(g)
+    return True
+
+
+def _ordinate_group(rng, twins):
+    """members differing in single ordinates a <-> twins(a): hash-equal numbers"""
+    while True:
+        k, g = gen_geom(rng)
+        if rng.random() < 0.15:
+            k, g = 'circle', [rng.randint(-3, 3), rng.randint(-3, 3), 300_000]
+        elif k == 'pt' and rng.random() < 0.3:
+            g = g + [rng.choice([-1, -2, 1, 5])]                      # a z ordinate (hashed, compared, not used spatially)
+        npos = 2 if k == 'circle' else len(_flat(g))
+        cand = [(i, t) for i in range(npos) for t in twins(_flat(g)[i])]
+        if cand:
+            break
+    variants, seen = [{'k': k, 'g': g}], {json.dumps(g)}
+    for _ in range(rng.choice([1, 1, 2, 3])):
+        g2 = g
+        for i, t in rng.sample(cand, rng.randint(1, min(2, len(cand)))):
+            g2 = _subst(g2, i, t)
+        if _valid(k, g2) and json.dumps(g2) not in seen:
+            seen.add(json.dumps(g2))
+            variants.append({'k': k, 'g': g2})
+    qs = []
+    for v in variants:                                               # around each ordinate pair (x, y) of each variant
+        f = _flat(v['g'])
+        pairs = [f[:2]] if k in ('pt', 'circle') else [[f[0], f[1]], [f[2], f[3]], [f[0], f[3]], [f[2], f[1]]] if k == 'box' else v['g']
+        for x, y in pairs:
+            qs.append({'k': 'pt', 'g': [x, y]})
+            qs.append({'k': 'box', 'g': [x - 0.25, y - 0.25, x + 0.25, y + 0.25]})
+            qs.append({'k': 'box', 'g': [x - 0.5, y - 0.5, x + 8, y + 8]})
+    return variants, rng.sample(qs, min(6, len(qs)))
+
+
+def _neg12_group(rng):
+    v, q = _ordinate_group(rng, lambda a: {-1: [-2], -2: [-1]}.get(a, []))
+    return 'minus-one/minus-two', v, q
+
+
+def _pow61_group(rng):
+    v, q = _ordinate_group(rng, lambda a: [a * 2.0 ** -61] if a not in (0, -1) else [])
+    return 'x/x*2^-61', v, q
+
+
+def _zero_group(rng):                     # control: 0.0 == -0.0, the members are equal
+    v, q = _ordinate_group(rng, lambda a: [-0.0] if a == 0 else [])
+    return 'zero/minus-zero (equal)', v, q
+
+
+def _props_group(rng):                    # control: equal members, different properties / time zone of the same instant
+    k, g = gen_geom(rng)
+    variants = [{'k': k, 'g': g} for _ in range(rng.choice([2, 3]))]
+    f = _flat(g)
+    qs = [{'k': 'pt', 'g': f[:2]}, {'k': 'box', 'g': [f[0] - 0.5, f[1] - 0.5, f[0] + 0.5, f[1] + 0.5]},
+          {'k': 'box', 'g': [f[0] - 9, f[1] - 9, f[0] + 9, f[1] + 9]}, {'k': 'pt', 'g': [f[0] + 50, f[1]]}]
+    return 'properties/zone only (equal)', variants, qs
+
+
+GROUPS = [_holes_group, _holes_group, _order_group, _order_group, _neg12_group, _neg12_group, _pow61_group,
+          _zero_group, _props_group]
+
+
+def gen_collision_cases(rng):
+    """-> list of specs: one group, one arrangement, every order of the group (<= 6 orders)"""
+    name, variants, queries = rng.choice(GROUPS)(rng)
+    kind = rng.choice(['FC', 'FC', 'TR'])
+    dt = gen_dt(rng, 0.4 if kind == 'FC' else 0.0)
+    if name.startswith('properties') and dt is None and rng.random() < 0.5:
+        dt = [H, H]
+    group = []
+    for v in variants:
+        props = {'color': rng.choice(['red', 'blue']), 'n': rng.randint(0, 5)}
+        group.append(dict(v, dt=dt, props=props, sty=rng.choice(['utc', 'utc', 120, -330]) if dt else 'utc', bare=False))
+    nfill = rng.randint(0, 4)
+    fill = [gen_shape(rng, 0.35 if kind == 'FC' else 0.0) for _ in range(nfill)]
+    for f in fill:
+        if rng.random() < 0.5:
+            f['dt'], f['bare'] = dt, False          # shares the group's time bounds (a Track keeps it between the group's members)
+    apart = rng.random() < 0.5
+    steps = []
+    for q in queries:
+        u = rng.random()
+        qdt = None if u < 0.6 or dt is None else dt if u < 0.85 else [dt[1] + H, dt[1] + 2 * H]
+        q = dict(q, dt=qdt, props={})
+        for f in ('int', 'contains', 'contained_by'):
+            steps.append([f, q])
+    sel = list(steps)
+    for _ in range(3):
+        steps.append(['chain', rng.choice(sel), rng.choice(sel), rng.sample(READABLE, rng.randint(0, 2))])
+    steps.append(['len'])
+    perms = list(itertools.permutations(range(len(group))))
+    if len(perms) > 6:
+        perms = [perms[0], perms[-1]] + rng.sample(perms[1:-1], 4)
+    out = []
+    for pm in perms:
+        g = [group[i] for i in pm]
+        if apart and fill:
+            shapes = []
+            for i, m in enumerate(g):
+                shapes.append(m)
+                shapes += fill[i::len(g)] if i < len(g) - 1 else []
+            shapes += [f for f in fill if not any(f is x for x in shapes)]
+        else:
+            cut = rng.randint(0, nfill)
+            shapes = fill[:cut] + g + fill[cut:]
+        out.append({'kind': kind, 'shapes': shapes, 'steps': steps, 'pre': [], 'group': name,
+                    'arrangement': 'apart' if apart and fill else 'adjacent'})
+    return out
+
+
 def main():
     ck = Check('C18')
     ck.build_theories(['theories/Props/C18.vo', 'theories/Corr/FilterK.vo'])
@@ -581,7 +808,8 @@ def main():
     rng = ck.rng
     quick = ck.tier == 'quick'
     cases, meta, failing = [], [], {}
-    tot = {'steps': 0, 'skipped': 0, 'asym': 0, 'proper': 0, 'results': 0, 'shrunk': 0, 'hulls': 0}
+    tot = {'steps': 0, 'skipped': 0, 'asym': 0, 'proper': 0, 'results': 0, 'shrunk': 0, 'hulls': 0,
+           'coll_pairs': 0, 'coll_eq_pairs': 0, 'coll_split': 0, 'coll_split_first_true': 0}
     for _ in range(600 if quick else 12000):
         spec = gen_case(rng)
         lit, m, fails, stats = run_case(spec)
@@ -594,7 +822,26 @@ def main():
         ck.count(spec['kind'] + (':rejected' if m['first'][0] != 'Ok' else ''))
         for c in stats['classes']:
             ck.count('op:' + c)
+    # H. hash-colliding members (see gen_collision_cases)
+    for _ in range(150 if quick else 1200):
+        for spec in gen_collision_cases(rng):
+            lit, m, fails, stats = run_case(spec)
+            cases.append(lit)
+            meta.append(m)
+            if fails:
+                failing[len(cases) - 1] = fails
+            for k in tot:
+                tot[k] += stats[k]
+            ck.count('collide:' + spec['group'] + '/' + spec['arrangement'])
+            if stats['coll_split']:
+                ck.count('collide-with-differing-verdicts:' + spec['group'])
+            for c in stats['classes']:
+                ck.count('op:' + c)
     ck.cov['evaluations'] = tot['steps'] + tot['results'] + len(cases)
+    ck.cov['pairs_of_unequal_members_with_one_hash'] = tot['coll_pairs']
+    ck.cov['pairs_of_equal_members'] = tot['coll_eq_pairs']
+    ck.cov['filter_calls_x_such_pairs_with_DIFFERENT_per_shape_verdicts'] = tot['coll_split']
+    ck.cov['of_which_the_earlier_member_is_the_selected_one'] = tot['coll_split_first_true']
     ck.cov['collections'] = len(cases)
     ck.cov['distinct_nontrivial'] = tot['proper']
     ck.cov['asymmetric_containment_pairs'] = tot['asym']
@@ -655,6 +902,11 @@ def main():
                    'non-bool results), len/bool/iter, every boundary index, membership of a member / an equal copy / a fresh shape, '
                    '+ with the same and the other class, bounds and geospan; chained filters and Track time slices; bounds / convex_hull / '
                    'len / centroid / geospan read on the source before or between the operations in a seeded mix (or not at all), then on '
+                   'collections holding a group of members with ONE hash that are unequal (same outline, different holes - boxes, polygons, '
+                   'circles, ellipses, rings; one vertex set in different orders; ordinates -1 vs -2; x vs x*2^-61) or equal (0.0/-0.0, '
+                   'same instant in two zones, properties only), adjacent or apart among other shapes, in every order of the group, '
+                   'with queries on which the group\'s per-shape verdicts differ, the three spatial filters and chains of them, '
+                   'compared by member identity; '
                    'EVERY result (filter, +, slice, chained filter): bounds = coll_bounds of exactly its members (Coq, FRes), hull vertices '
                    'among its members\' vertices and containing all of them (exact integers), len/iter/bool; source re-read at the end. '
                    'evaluations = collections built + step results compared + results whose derived attributes were read. '
